@@ -27,6 +27,10 @@ Definition tick2second_f (tick tpb tempo : Z) : float := (of_Z tick * scale_f tp
 Definition second2tick_f (second : float) (tpb tempo : Z) : option Z :=
   option_map round_half_even (f2q (second / scale_f tpb tempo)%float).
 
+(* bpm2tempo(bpm, (n, d)) = int(round(60 * 1e6 / bpm * d / 4.)) and tempo2bpm(tempo, (n, d)) = 60 * 1e6 / tempo * d / 4. *)
+Definition bpm2tempo_f (bpm : float) (den : Z) : option Z := option_map round_half_even (f2q (of_Z 60000000 / bpm * of_Z den / of_Z 4)%float).
+Definition tempo2bpm_f (tempo den : Z) : float := (of_Z 60000000 / of_Z tempo * of_Z den / of_Z 4)%float.
+
 (* __iter__: None stands for the int 0 that is yielded for a non-positive delta *)
 Fixpoint iter_f (tpb tempo : Z) (ms : list pmsg) : list (option float) :=
   match ms with
@@ -67,5 +71,7 @@ Definition run_tempo_float (inp : list Z) : list Z :=
       flat_map (fun o => match o with Some f => 1 :: out_float f | None => [0] end) ds
       ++ [-9] ++ flat_map out_float (running_sum 0%float ds)
   | [3; tick; tpb; tempo] => match second2tick_f (tick2second_f tick tpb tempo) tpb tempo with Some n => [0; n] | None => [-1; 0] end
+  | [4; s; mant; ex; den] => match bpm2tempo_f (in_float s mant ex) den with Some n => [0; n] | None => [-1; 0] end
+  | [5; tempo; den] => out_float (tempo2bpm_f tempo den)
   | _ => [-2]
   end%Z.
